@@ -75,6 +75,8 @@ func errCode(err error) string {
 
 // execAPI drives the Go Backend interface directly.
 func (r *Run) execAPI(op *Op) {
+	simrt.EnterServer()
+	defer simrt.LeaveServer()
 	be := r.Env.Backend
 	b := r.M.Buckets[op.B]
 	switch op.K {
